@@ -58,6 +58,12 @@ func seqProfile(prop string, cas int, tier string) Profile {
 		if tier == "thorough" {
 			p.NOps = 400
 		}
+	case "C06":
+		p.NOps = 60
+		p.DiskBlocks = 9000
+		p.PDead, p.PWrongKind, p.PBadName = 5, 8, 8
+		p.ManyBigFrees = true
+		p.Recycle = cas%2 == 1
 	case "C04":
 		p.NOps = 140
 		p.DiskBlocks = 12000
@@ -714,6 +720,11 @@ func propSpecs() map[string]PropSpec {
 			for i := 0; i < 6; i++ {
 				// requests parked inside a disk read with waiters behind them while the inode cache turns over
 				js = append(js, Job{Engine: "dgate", Profile: "C06", Seed: seed, Case: i})
+			}
+			// background frees: seven big files, an orderly shutdown with frees in
+			// flight, 72 truncations whose shrinker threads are held in flight together
+			for i := 0; i < 2; i++ {
+				js = append(js, Job{Engine: "seq", Profile: "C06", Seed: seed, Case: i})
 			}
 			return withWindow(withConc(func(string, uint64) []Job { return js }, "C06", 64, 800, false), "C06")(tier, seed)
 		},
